@@ -171,6 +171,32 @@ def run_case(case):
         diffs = compare_tail(R, "restart", prev_arrays, B, k, exact=same_grid, judge_beyond_first=judge_all)
         if any(np.any(prev_arrays[key][..., k] != prev_arrays[key][..., 0]) for key in prev_arrays if key[0] == "comp"):
             nontrivial = True
+        if diffs and not same_grid and diffs[0][1] is not None and diffs[0][1][-1] != 0:
+            # the restarted grid differs from the tail of the original in the last bit (t enters parameter functions): is the
+            # difference what this model does to *any* one-ulp change?  Restart once more from the saved state moved by one
+            # unit in the last place and measure how far that run drifts from the restart
+            ps3 = sc.dcp(ps2)
+            ps3.initialization.values = {k_: np.nextafter(np.asarray(v_, dtype=float), np.inf) if not np.isscalar(v_) else float(np.nextafter(v_, np.inf)) for k_, v_ in ps3.initialization.values.items()}
+            D = digest.result_arrays(P.run_sim(ps3, progset=pset, progset_instructions=instr))
+            floor_ = max([1.0] + [float(np.nanmax(np.abs(np.where(np.isfinite(v), v, 0.0)))) for kk, v in B.items() if kk[0] in ("comp", "link") and v.size])
+
+            def drift_(X, Y_, off):
+                worst = 0.0
+                for kk, v in Y_.items():
+                    if kk[0] in ("comp", "link", "bins", "charac") and kk in X:
+                        x = X[kk][..., off : off + v.shape[-1]]
+                        if x.shape == v.shape:
+                            with np.errstate(all="ignore"):
+                                e_ = np.abs(x - v) / np.maximum(floor_, np.maximum(np.abs(x), np.abs(v)))
+                            if e_.size and np.isfinite(e_).any():
+                                worst = max(worst, float(np.nanmax(e_)))
+                return worst
+
+            d_restart, d_ulp = drift_(prev_arrays, B, k), drift_(D, B, 0)
+            R.count("restarts_on_last_bit_different_grids_judged_against_the_models_own_sensitivity")
+            if d_restart <= 100.0 * d_ulp:
+                R.count("restart_drift_within_the_drift_of_a_one_ulp_change")
+                diffs = []
         if diffs:
             what = str(diffs[0][0][0])
             idx = diffs[0][1]
